@@ -1,5 +1,13 @@
 (* correspondence runner: one case per line on stdin  "<id> <lane> <args>", one outcome per line  "<id> <outcome>" *)
 open Model
+module String = Stdlib.String
+module List = Stdlib.List
+module Char = Stdlib.Char
+module Array = Stdlib.Array
+module Buffer = Stdlib.Buffer
+module Printf = Stdlib.Printf
+type string = Stdlib.String.t
+let compare = Stdlib.compare
 open Conv
 
 let max_depth = nat_of_int 100          (* MAX_DEPTH of the repaired lber parser *)
@@ -33,6 +41,45 @@ let lane_frame args =
   let (evs, left) = framed_run_buf (decode_inner' (repaired_d max_depth)) [] chunks in
   String.concat " " (List.map show_event evs @ [match left with Some b -> Printf.sprintf "need:%d" (List.length b) | None -> "end"])
 
+(* ---- text lanes ---- *)
+let lane_filter args = match parse (bytes_of_hex (List.hd args)) with Some t -> "ok " ^ show_tree t | None -> "error"
+let lane_esc args =
+  match args with
+  | ["ldap"; h] -> let (borrowed, out) = ldap_escape (bytes_of_hex h) in Printf.sprintf "%s %s" (if borrowed then "borrowed" else "owned") (hex_of_bytes out)
+  | ["dn"; h] -> let v = bytes_of_hex h in let out = dn_escape v in Printf.sprintf "%s %s" (if out = v then "borrowed" else "owned") (hex_of_bytes out)
+  | ["unesc"; h] -> (match ldap_unescape (bytes_of_hex h) with Some v -> "ok " ^ hex_of_bytes v | None -> "error")
+  | _ -> "BAD-ARGS"
+let lane_utf8 args = if valid (bytes_of_hex (List.hd args)) then "valid" else "invalid"
+let show_amap (m : (byte list * byte list list) list) =
+  let items = List.map (fun (k, vs) -> (hex_of_bytes k, list_str hex_of_bytes vs)) m in
+  let items = List.sort compare items in
+  "{" ^ String.concat ";" (List.map (fun (k, v) -> k ^ "=" ^ v) items) ^ "}"
+let lane_entry args =
+  match construct valid (parse_tree (List.hd args)) with
+  | Panic -> "panic"
+  | Ok e -> Printf.sprintf "dn=%s text=%s bin=%s" (hex_of_bytes e.e_dn) (show_amap e.e_attrs) (show_amap e.e_bin)
+let lane_result args =
+  match result_of_tree (parse_tree (List.hd args)) with
+  | Panic -> "panic"
+  | Ok r -> Printf.sprintf "rc=%s matched=%s text=%s refs=%s" (decimal_of_n r.rc) (hex_of_bytes r.matched) (hex_of_bytes r.text) (list_str hex_of_bytes r.refs)
+let lane_helpers args =
+  let c = n_of_decimal (List.hd args) in
+  let b x = if x then "1" else "0" in
+  Printf.sprintf "success=%s non_error=%s equal=%s cmp_non_error=%s" (b (success c)) (b (non_error c))
+    (match cmp_equal c with Some true -> "true" | Some false -> "false" | None -> "err") (b (cmp_non_error c))
+let ext_str = function
+  | Bindname v -> "bindname=" ^ hex_of_bytes v | XBindpw v -> "x-bindpw=" ^ hex_of_bytes v
+  | Credentials v -> "credentials=" ^ hex_of_bytes v | SaslMech v -> "saslmech=" ^ hex_of_bytes v | StartTLS -> "starttls"
+let lane_url args =
+  (* url <urlhex> <pathhex> <queryhex|none> [tags..] *)
+  let path = bytes_of_hex (List.nth args 1) in
+  let query = match List.nth args 2 with "none" -> None | h -> Some (bytes_of_hex h) in
+  match get_url_params path query with
+  | UErr EUtf8 -> "err utf8" | UErr EScope -> "err scope" | UErr ECritical -> "err critical"
+  | UOk p -> Printf.sprintf "base=%s attrs=%s scope=%s filter=%s exts={%s}" (hex_of_bytes p.p_base) (list_str hex_of_bytes p.p_attrs)
+      (match p.p_scope with Base -> "base" | OneLevel -> "one" | Subtree -> "sub") (hex_of_bytes p.p_filter)
+      (String.concat ";" (List.sort compare (List.map ext_str p.p_exts)))
+
 let dispatch lane args =
   match lane with
   | "parse" -> lane_parse args
@@ -40,6 +87,13 @@ let dispatch lane args =
   | "int" -> lane_int args
   | "bool" -> lane_bool args
   | "frame" -> lane_frame args
+  | "filter" -> lane_filter args
+  | "esc" -> lane_esc args
+  | "utf8" -> lane_utf8 args
+  | "entry" -> lane_entry args
+  | "result" -> lane_result args
+  | "helpers" -> lane_helpers args
+  | "url" -> lane_url args
   | _ -> "UNKNOWN-LANE"
 
 let () =
